@@ -1067,8 +1067,8 @@ impl TimeUtilities for DateTime {
     }
 
     fn sub_hours(&self, hours: u32) -> Self {
-        let total_nanos = self.days as i128 * NANOS_PER_DAY as i128
-            + sub_hours(self.nanoseconds as i64, hours) as i128;
+        let total_nanos =
+            self.days as i128 * NANOS_PER_DAY as i128 + sub_hours(self.nanoseconds as i64, hours);
 
         let (days, nanoseconds) = nanos_to_days_nanos(total_nanos).unwrap_or_else(|_| {
             panic!(
@@ -1086,7 +1086,7 @@ impl TimeUtilities for DateTime {
 
     fn sub_minutes(&self, minutes: u32) -> Self {
         let total_nanos = self.days as i128 * NANOS_PER_DAY as i128
-            + sub_minutes(self.nanoseconds as i64, minutes) as i128;
+            + sub_minutes(self.nanoseconds as i64, minutes);
 
         let (days, nanoseconds) = nanos_to_days_nanos(total_nanos).unwrap_or_else(|_| {
             panic!(
